@@ -142,6 +142,7 @@ def run_case(col, case):
 COMMON_IN = [12e6, 16e6, 24e6, 25e6, 26e6, 27e6, 33.333e6, 48e6, 50e6, 74.25e6, 100e6, 125e6, 156.25e6, 200e6, 300e6]
 COMMON_OUT = [6.25e6, 8e6, 10e6, 12e6, 16e6, 24e6, 25e6, 33.333e6, 40e6, 48e6, 50e6, 60e6, 65e6, 74.25e6, 75e6, 80e6, 100e6, 125e6, 133.33e6,
               148.5e6, 150e6, 166.666e6, 200e6, 250e6, 300e6, 333.333e6, 400e6, 500e6, 600e6, 800e6]
+TYPICAL_OUT = [12e6, 24e6, 25e6, 30e6, 40e6, 48e6, 50e6, 60e6, 66.667e6, 75e6, 100e6, 125e6, 150e6, 200e6]
 MARGINS = [1e-2, 1e-2, 1e-2, 1e-2, 1e-3, 1e-3, 1e-4, 2e-2, 2e-2, 5e-2, 5e-2, 1e-5, 3e-3, 3e-3, 0]
 GW1N_DEVICES = [("GW1N-9C", "GW1N-LV9QN48C6/I5"), ("GW1N-1", "GW1N-LV1QN48C6/I5"), ("GW1NR-9", "GW1NR-LV9QN88PC6/I5"),
                 ("GW1NS-4C", "GW1NSR-LV4CQN48PC7/I6"), ("GW1N-1S", "GW1N-1S-CS30C6/I5"), ("GW1NS-4", "GW1NS-LV4CQN48C5/I4")]
@@ -300,8 +301,16 @@ def gen_request(col, name, rng):
     if name == "TRIONPLL":
         return gen_trion(col, rng)
     clkin = gen_clkin(col, name, probe, rng)
+    want_typical = rng.random() < 0.2
+    if want_typical:
+        lo_, hi_ = clkin_range(name, probe)
+        c_ = [f for f in (12e6, 24e6, 25e6, 27e6, 48e6, 50e6, 100e6, 125e6, 200e6) if lo_ <= f <= hi_]
+        if c_:
+            clkin = rng.choice(c_)
     nmax = probe.nclkouts_max
     k = rng.choice([1, 1, 2, 2, 3, nmax, rng.randint(1, nmax)])
+    if want_typical:
+        k = rng.choice([1, 2, 2, 3, nmax, nmax])           # boards commonly use every output of the primitive
     if name in ("GW1NPLL", "GW2APLL"):
         k = rng.choices([1, 2, 3, 4], [5, 4, 2, 1])[0]      # rPLL has four pins with fixed ratios: most larger sets are unachievable
     k = max(1, min(k, nmax))
@@ -310,12 +319,18 @@ def gen_request(col, name, rng):
     probe.clkin_freq = clkin
     fam = mon.family(probe)
     desc = mon.describe(probe, nouts=k) if fam not in ("GW1NPLL",) else None
-    weights = [5, 3, 2, 1]
+    weights = [5, 3, 2, 1, 0]
     if fam == "GW1NPLL":
-        weights = [8, 1, 1, 0]
+        weights = [8, 1, 1, 0, 0]
     if name == "USPMMCM":
-        weights = [12, 1, 1, 1]             # every refusal of this helper costs seconds (its scan rebuilds 1000-entry lists): keep them rare
-    mode = rng.choices(["achievable", "round", "random", "vco-edge"], weights)[0]
+        weights = [12, 1, 1, 1, 0]          # every refusal of this helper costs seconds (its scan rebuilds 1000-entry lists): keep them rare
+    # "typical": what user code usually asks for - related round frequencies, one margin (1e-2 default) for all outputs, few phases
+    mode = rng.choices(["achievable", "round", "random", "vco-edge", "typical"], weights)[0]
+    if want_typical and fam != "GW1NPLL":
+        mode = "typical"
+    elif mode == "typical":
+        mode = "round"
+    typical_margin = rng.choice([1e-2, 1e-2, 1e-2, 2e-2, 5e-3])
     setting = None
     if fam == "ECP5PLL":
         # pfd*P with P = clkfb_div * feedback divider
@@ -327,6 +342,7 @@ def gen_request(col, name, rng):
                 if model.strictly_in_window(pfd*P, desc["vco"]):
                     setting = (ci, P, pfd*P)
                     break
+        ecp5_fb_out = rng.randrange(k) if (setting and k == nmax) else None     # no spare output: the loop closes through a user output
     elif fam == "GW1NPLL":
         d0 = mon.describe(probe)
         for _ in range(60):
@@ -366,6 +382,9 @@ def gen_request(col, name, rng):
                     f = vco/rng.choice([1, 1, 1, 3, 2, 4, 8, 10, 128] if i else [1])
             elif fam == "ECP5PLL":
                 f = vco/rng.randint(1, 128)
+                if i == ecp5_fb_out:
+                    # the feedback output's divider must divide P = clkfb_div * divider
+                    f = vco/rng.choice([d for d in range(1, 129) if setting[1] % d == 0 and setting[1]//d <= 128])
             else:
                 ds = model.spec_values(desc["d"][i])
                 ds = [d for d in ds if d > 0]
@@ -386,11 +405,17 @@ def gen_request(col, name, rng):
         elif mode == "round":
             c = [x for x in COMMON_OUT if lo_out <= x <= hi_out]
             f = rng.choice(c)
+        elif mode == "typical":
+            c = [x for x in TYPICAL_OUT if lo_out <= x <= hi_out] or [x for x in COMMON_OUT if lo_out <= x <= hi_out]
+            f = rng.choice(c)
+            m = typical_margin
         else:
             f = loguniform(rng, max(lo_out, 2e6), min(hi_out, 900e6))
             if rng.random() < 0.5:
                 f = float(round(f, -4))
         ph = rng.choice([0, 0, 0, 0, base_phase, 90, 180, 270, 45, 22.5, rng.randint(0, 359)])
+        if mode == "typical" and rng.random() < 0.7:
+            ph = 0
         if fam == "iCE40PLL" or (fam == "GW5APLL" and rng.random() < 0.7):
             ph = 0
         if fam == "GW1NPLL":
